@@ -20,15 +20,54 @@ IDENTITY_ATTRS = {'subscript', 'coords', 'bicoords', 'spec', 'ident', 'sort_tupl
 CONSTRUCTORS = {'Constant', 'Atomic', 'Variable', 'Predicate'}
 # reviewed sites: (module, function) -> reason
 ALLOWED = {
-    ('pytableaux.logics.k3wq', 'Model.value_of_quantified'): 'index of the *quantifier* enum member selects the neutral element',
-    ('pytableaux.logics.kk3wq', 'Model.value_of_operated'): 'index of the *operator* enum member selects the neutral element',
     ('pytableaux.logics', '*'): 'Registry.index is the logic-module index, unrelated to lexical symbols',
     ('pytableaux.proof.tableaux', 'RulesRoot.__getitem__'): 'sequence index arithmetic',
     ('pytableaux.proof.tableaux', 'Tableau.__listen_on.<locals>.add_branch'): 'branch index in the stat table',
 }
 
 
-def scan(tree, modname, funcs):
+ENUM_ATTRS = ('operator', 'quantifier')
+ENUM_CLASSES = ('Operator', 'Quantifier')
+
+
+def enum_member_expr(e, fn, funcs, qn, members, depth=0):
+    """Is `e` (inside fn) an Operator / Quantifier enum member -- whose `.index` is its position in the fixed enum, not the index
+    of a renameable symbol?  `s.operator`, `s.quantifier`, `Operator.X`, `<member>.<MemberName>`, a local assigned only from
+    such expressions, or a parameter that every call site in the module (`self.f(...)`) gives such an expression."""
+    if depth > 3:
+        return False
+    if isinstance(e, ast.Attribute):
+        if e.attr in ENUM_ATTRS:
+            return True
+        if e.attr in members:
+            return (isinstance(e.value, ast.Name) and e.value.id in ENUM_CLASSES) or enum_member_expr(e.value, fn, funcs, qn, members, depth)
+        return False
+    if isinstance(e, ast.Name):
+        vals = [st.value for t, st in astq.stores(fn, nested=False) if isinstance(t, ast.Name) and t.id == e.id and getattr(st, 'value', None) is not None
+                and isinstance(st, (ast.Assign, ast.AnnAssign, ast.NamedExpr))]
+        others = [t for t, st in astq.stores(fn, nested=False) if isinstance(t, ast.Name) and t.id == e.id and not isinstance(st, (ast.Assign, ast.AnnAssign, ast.NamedExpr))]
+        if vals and not others:
+            return all(enum_member_expr(v, fn, funcs, qn, members, depth + 1) for v in vals)
+        if vals or others:
+            return False
+        params = [a.arg for a in fn.args.posonlyargs + fn.args.args]
+        if e.id not in params or not params or params[0] not in ('self', 'cls'):
+            return False
+        pos = params.index(e.id) - 1
+        name = qn.rsplit('.', 1)[-1]
+        sites = [(q, f, c) for q, f in funcs for c in astq.calls(f, nested=False)
+                 if isinstance(c.func, ast.Attribute) and c.func.attr == name and isinstance(c.func.value, ast.Name) and c.func.value.id in ('self', 'cls')]
+        if not sites:
+            return False
+        for q, f, c in sites:
+            arg = c.args[pos] if pos < len(c.args) else next((k.value for k in c.keywords if k.arg == e.id), None)
+            if arg is None or not enum_member_expr(arg, f, funcs, q, members, depth + 1):
+                return False
+        return True
+    return False
+
+
+def scan(tree, modname, funcs, members=()):
     "yield (function, node, what) for identity inspections"
     for qn, fn in funcs:
         short = qn.rsplit('.', 1)[-1]
@@ -39,6 +78,8 @@ def scan(tree, modname, funcs):
                 base = astq.u(n.value)
                 if n.attr == 'index' and (base.endswith('.index') or base in ('self', 'branches')):
                     continue
+                if n.attr == 'index' and enum_member_expr(n.value, fn, funcs, qn, members):
+                    continue        # position of an operator / quantifier in its enum: fixed by the language, not by the argument
                 yield qn, n, f'reads `{astq.u(n)}`'
             if isinstance(n, ast.Call) and isinstance(n.func, ast.Name) and n.func.id in CONSTRUCTORS and n.args \
                     and all(isinstance(a, ast.Constant) for a in n.args):
@@ -50,7 +91,8 @@ def run(ctx, rep):
     R2 = rep.rule('C10.R2', 'symbol blindness of the prover: no inspection of symbol identity outside reviewed sites')
     # positive fixture
     ftree = ast.parse(FIXTURE.read_text())
-    hits = list(scan(ftree, 'fixture', astq.all_functions(ftree)))
+    members = tuple(lgs.lex.operators) + tuple(lgs.lex.quantifiers)
+    hits = list(scan(ftree, 'fixture', astq.all_functions(ftree), members))
     if len(hits) < 4:
         raise AnalysisError(f'C10.R2 fixture: only {len(hits)} of 4 planted inspections recognised -- the scanner is broken')
     rep.count('C10.R2:fixture-hits', len(hits))
@@ -62,7 +104,7 @@ def run(ctx, rep):
             continue
         funcs = astq.all_functions(m.trees[mod])
         nfn += len(funcs)
-        for qn, node, what in scan(m.trees[mod], mod, funcs):
+        for qn, node, what in scan(m.trees[mod], mod, funcs, members):
             ok = (mod, qn) in ALLOWED or (mod, '*') in ALLOWED
             rep.instance(R2, ok=ok, sample=dict(site=f'{mod}:{qn}', what=what), nontrivial=(mod, qn, what))
             if not ok:
